@@ -4,9 +4,13 @@ def inst(name, entry, K, tiers, unwind, timeout=240):
 def group(K, tiers, insts):
     return dict(name='k%d' % K, harness='h.cpp', tus=['src/base/QXmppTask.cpp'], cxxdefs={'VP_K': K}, models=['models.c'],
                 instances=[inst('%s_K%d' % (e, K), 'h_' + e, K, tiers, K + 2) for e in insts])
+def rel(name, case):
+    d = inst('%s_c%d' % (name, case), 'h_' + name, 0, ('quick', 'thorough'), 4, 240); d['cdefs'] = {'VP_CASE': case}; d['cbmc_flags'] = []; d['bound'] = 'attach %s finish; continuation captures a copy of its own task' % ('before' if case else 'after'); return d
 SPEC = dict(
     property='C13',
     groups=[
+        dict(name='rel', harness='h.cpp', tus=['src/base/QXmppTask.cpp'], cxxdefs={'VP_K': 3}, models=['models.c'],
+             instances=[rel(n, c) for n in ('release_conv', 'release_same', 'release_void') for c in (1,)]),
         group(3, ('quick', 'thorough'), ['sched_int', 'sched_void', 'sched_uptr', 'sched_int_reenter', 'observers', 'reenter_void_then', 'reenter_int_refinish', 'reenter_uptr_refinish', 'reenter_observe']),
         group(4, ('thorough',), ['sched_int', 'sched_void', 'sched_uptr', 'sched_int_reenter']),
     ],
